@@ -154,12 +154,31 @@ Variable fl : float_ops.
 Variable itx : Z -> Z -> Z -> str.
 Hypothesis FT : float_text_ok fl.
 
+(** the tokens of [float_literal]: a number, or the quoted spelling of a special value *)
+Definition float_toks (w : Z) (show : Z -> str) (b : Z) : list tok :=
+  if f_is_nan w b then [TStr (lit "NaN")]
+  else if f_is_inf w b then (if f_sign_positive w b then [TStr (lit "Infinity")] else [TStr (lit "-Infinity")])
+  else [TNum (show b)].
+
+Lemma float_toks_finite w show b : (w = 32 \/ w = 64) -> finite_pos w b = true -> float_toks w show b = [TNum (show b)].
+Proof.
+  intros Hw H. destruct (finite_pos_not_special w b Hw H) as [N I]. unfold float_toks. rewrite N, I. reflexivity.
+Qed.
+
+Lemma special_cases64 b : finite_pos 64 b || special64 b = true ->
+  finite_pos 64 b = true \/ b = 9221120237041090560 \/ b = 9218868437227405312 \/ b = 18442240474082181120.
+Proof. unfold special64. rewrite !orb_true_iff, !Z.eqb_eq. tauto. Qed.
+Lemma special_cases32 b : finite_pos 32 b || special32 b = true ->
+  finite_pos 32 b = true \/ b = 2143289344 \/ b = 2139095040 \/ b = 4286578688.
+Proof. unfold special32. rewrite !orb_true_iff, !Z.eqb_eq. tauto. Qed.
+
 Definition value_toks (v : sqlvalue) : list tok :=
   match v with
   | VNull => [TKw (lit "Null")]
   | VInteger n | VSmallint n | VBigint n | VUnsigned n => [TNum (show_nat n)]
-  | VNumeric b | VDouble b => [TNum (show_f64 fl b)]
-  | VFloat b | VReal b => [TNum (show_f32 fl b)]
+  | VNumeric b => [TNum (show_f64 fl b)]
+  | VDouble b => float_toks 64 (show_f64 fl) b
+  | VFloat b | VReal b => float_toks 32 (show_f32 fl) b
   | VCharacter s | VVarchar s => [TStr s]
   | VBoolean b => [TKw (if b then lit "True" else lit "False")]
   | VDate y m d => [TKw (lit "Date"); TStr (show_date y m d)]
@@ -196,8 +215,16 @@ Proof.
   apply lexes_space, lexes_string; [apply val_stop_quote, Hr | exact H].
 Qed.
 
+Lemma lexes_special (text : str) (toks : list tok) (name : str) r ts :
+  text = 39 :: dq name ++ [39] -> toks = [TStr name] -> val_stop r -> lexes r ts ->
+  lexes (text ++ r) (toks ++ ts).
+Proof. intros -> -> Hr H. apply (lexes_string name r ts); [apply val_stop_quote, Hr | exact H]. Qed.
+
+Ltac lex_special name Hr H :=
+  apply (lexes_special _ _ name); [vm_compute; reflexivity | vm_compute; reflexivity | exact Hr | exact H].
+
 Lemma lexes_value ty nl v r ts :
-  value_ok fl ty nl v = true -> val_stop r -> lexes r ts ->
+  value_ok ty nl v = true -> val_stop r -> lexes r ts ->
   lexes (sql_value_to_literal fl itx v ++ r) (value_toks v ++ ts).
 Proof.
   intros V Hr H.
@@ -205,18 +232,28 @@ Proof.
     cbn [value_ok] in V; cbn [sql_value_to_literal value_toks app].
   - (* Integer *) destruct ty; cbn [value_ok] in V; try (dead V). unfold nonneg_i64 in V. apply andb_true_iff in V as [V0 _]. apply Z.leb_le in V0.
     rewrite show_int_nonneg by exact V0. apply lexes_number; [apply show_nat_decimal, V0 | apply val_stop_num, Hr | exact H].
-  - destruct ty; cbn [value_ok] in V; dead V.
+  - (* Smallint *) destruct ty; cbn [value_ok] in V; try (dead V). apply andb_true_iff in V as [V0 _]. apply Z.leb_le in V0.
+    rewrite show_int_nonneg by exact V0. apply lexes_number; [apply show_nat_decimal, V0 | apply val_stop_num, Hr | exact H].
   - (* Bigint *) destruct ty; cbn [value_ok] in V; try (dead V). unfold nonneg_i64 in V. apply andb_true_iff in V as [V0 _]. apply Z.leb_le in V0.
     rewrite show_int_nonneg by exact V0. apply lexes_number; [apply show_nat_decimal, V0 | apply val_stop_num, Hr | exact H].
   - destruct ty; cbn [value_ok] in V; dead V.
-  - (* Numeric *) destruct ty; cbn [value_ok] in V; try (dead V). apply andb_true_iff in V as [V0 _].
-    apply lexes_number; [apply (ft_shape64 fl FT), V0 | apply val_stop_num, Hr | exact H].
-  - (* Float *) destruct ty; cbn [value_ok] in V; try (dead V). rewrite float_literal_finite by (auto || exact V).
-    apply lexes_number; [apply (ft_shape32 fl FT), V | apply val_stop_num, Hr | exact H].
-  - (* Real *) destruct ty; cbn [value_ok] in V; try (dead V). rewrite float_literal_finite by (auto || exact V).
-    apply lexes_number; [apply (ft_shape32 fl FT), V | apply val_stop_num, Hr | exact H].
-  - (* Double *) destruct ty; cbn [value_ok] in V; try (dead V). rewrite float_literal_finite by (auto || exact V).
+  - (* Numeric *) destruct ty; cbn [value_ok] in V; try (dead V).
     apply lexes_number; [apply (ft_shape64 fl FT), V | apply val_stop_num, Hr | exact H].
+  - (* Float *) destruct ty; cbn [value_ok] in V; try (dead V).
+    destruct (special_cases32 b V) as [F | [-> | [-> | ->]]];
+      [| lex_special (lit "NaN") Hr H | lex_special (lit "Infinity") Hr H | lex_special (lit "-Infinity") Hr H].
+    rewrite float_literal_finite, float_toks_finite by (auto || exact F).
+    apply lexes_number; [apply (ft_shape32 fl FT), F | apply val_stop_num, Hr | exact H].
+  - (* Real *) destruct ty; cbn [value_ok] in V; try (dead V).
+    destruct (special_cases32 b V) as [F | [-> | [-> | ->]]];
+      [| lex_special (lit "NaN") Hr H | lex_special (lit "Infinity") Hr H | lex_special (lit "-Infinity") Hr H].
+    rewrite float_literal_finite, float_toks_finite by (auto || exact F).
+    apply lexes_number; [apply (ft_shape32 fl FT), F | apply val_stop_num, Hr | exact H].
+  - (* Double *) destruct ty; cbn [value_ok] in V; try (dead V).
+    destruct (special_cases64 b V) as [F | [-> | [-> | ->]]];
+      [| lex_special (lit "NaN") Hr H | lex_special (lit "Infinity") Hr H | lex_special (lit "-Infinity") Hr H].
+    rewrite float_literal_finite, float_toks_finite by (auto || exact F).
+    apply lexes_number; [apply (ft_shape64 fl FT), F | apply val_stop_num, Hr | exact H].
   - (* Character *) unfold str_lit. rewrite sql_quote_dq. change (39 :: dq s ++ [39]) with (39 :: dq s ++ [39]).
     apply (lexes_string s r ts); [apply val_stop_quote, Hr | exact H].
   - (* Varchar *) unfold str_lit. rewrite sql_quote_dq.
@@ -248,7 +285,7 @@ Lemma row_toks_cons2 v v2 r : row_toks (v :: v2 :: r) = value_toks v ++ TComma :
 Proof. reflexivity. Qed.
 
 Lemma lexes_row row : forall cols r ts,
-  row_ok fl cols row = true -> row <> [] -> lexes r ts ->
+  row_ok cols row = true -> row <> [] -> lexes r ts ->
   lexes (join_comma (map lit_of row) ++ 41 :: r) (row_toks row ++ TRParen :: ts).
 Proof.
   induction row as [|v row IH]; intros cols r ts R Hne H; [congruence|].
@@ -302,57 +339,75 @@ Proof.
   apply Z.eqb_eq in Hx. subst x. cbn [length repeat]. rewrite <- IH by exact H. reflexivity.
 Qed.
 
-(** what [coerce_value] makes of the parsed literal of a stored value: the value itself, except for
-    a CHAR value longer than [n] bytes, which is cut on a character boundary *)
-Definition coerced (ty : dtype) (v : sqlvalue) : sqlvalue :=
-  match ty, v with
-  | TChar n, VCharacter s => if n <? blen s then VCharacter (byte_floor_prefix n s) else v
-  | _, _ => v
-  end.
+(** what [coerce_value] makes of the parsed literal of a stored value: since the CHAR arm counts
+    characters (as the storage layer does) it is the stored value itself *)
+Definition coerced (ty : dtype) (v : sqlvalue) : sqlvalue := v.
 
 (** the literal parses to a value that [coerce_value] turns into [coerced ty v] ... *)
 Lemma value_parse ty nl v rest :
-  value_ok fl ty nl v = true ->
+  value_ok ty nl v = true ->
   exists pv, parse_value fl (value_toks v ++ rest) = OOk (pv, rest) /\ coerce_value fl pv ty = OOk (coerced ty v).
 Proof.
   intros V.
-  assert (CI : forall w, (forall s0, w <> VCharacter s0) -> coerced ty w = w)
-    by (intros w Hw; destruct ty, w; try reflexivity; exfalso; eapply Hw; reflexivity).
+  assert (CI : forall w, (forall s0, w <> VCharacter s0) -> coerced ty w = w) by reflexivity.
   destruct v as [n|n|n|n|b|b|b|b|s|s|b|y m d|h mi s ns|y m d h mi s ns|mo d us|];
     cbn [value_ok] in V; cbn [value_toks app parse_value]; try rewrite CI by discriminate.
   - (* Integer *) destruct ty; cbn [value_ok] in V; try (dead V).
     unfold nonneg_i64, i64_max in V. apply andb_true_iff in V as [V0 V1]. apply Z.leb_le in V0, V1.
     unfold parse_i64. rewrite parse_show_nat by lia. eexists. split; reflexivity.
-  - destruct ty; cbn [value_ok] in V; dead V.
+  - (* Smallint: read as Integer, narrowed by i16::try_from *)
+    destruct ty; cbn [value_ok] in V; try (dead V).
+    apply andb_true_iff in V as [V0 V1]. apply Z.leb_le in V0, V1.
+    unfold parse_i64. rewrite parse_show_nat by lia. eexists. split; [reflexivity|]. cbn [coerce_value].
+    replace ((-32768 <=? n) && (n <=? 32767)) with true by lia. reflexivity.
   - (* Bigint *) destruct ty; cbn [value_ok] in V; try (dead V).
     unfold nonneg_i64, i64_max in V. apply andb_true_iff in V as [V0 V1]. apply Z.leb_le in V0, V1.
     unfold parse_i64. rewrite parse_show_nat by lia. eexists. split; reflexivity.
   - destruct ty; cbn [value_ok] in V; dead V.
-  - (* Numeric: the text is not an integer literal *)
-    destruct ty; cbn [value_ok] in V; try (dead V). apply andb_true_iff in V as [V0 V1].
-    destruct (parse_i64 (show_f64 fl b)) eqn:P; [discriminate|].
-    rewrite (ft_rt64 fl FT b V0). eexists. split; reflexivity.
-  - (* Float *) destruct ty; cbn [value_ok] in V; try (dead V).
-    destruct (parse_i64 (show_f32 fl b)) as [i|] eqn:P.
-    + eexists. split; [reflexivity|]. cbn [coerce_value]. rewrite (ft_int32 fl FT b i V P). reflexivity.
-    + destruct (ft_rt32 fl FT b V P) as (d & Pd & Ed). rewrite Pd. eexists. split; [reflexivity|].
-      cbn [coerce_value]. rewrite Ed. reflexivity.
-  - (* Real *) destruct ty; cbn [value_ok] in V; try (dead V).
-    destruct (parse_i64 (show_f32 fl b)) as [i|] eqn:P.
-    + eexists. split; [reflexivity|]. cbn [coerce_value]. rewrite (ft_int32 fl FT b i V P). reflexivity.
-    + destruct (ft_rt32 fl FT b V P) as (d & Pd & Ed). rewrite Pd. eexists. split; [reflexivity|].
-      cbn [coerce_value]. rewrite Ed. reflexivity.
-  - (* Double *) destruct ty; cbn [value_ok] in V; try (dead V).
+  - (* Numeric: a whole value reads as an Integer and is converted back by [as f64] *)
+    destruct ty; cbn [value_ok] in V; try (dead V).
     destruct (parse_i64 (show_f64 fl b)) as [i|] eqn:P.
     + eexists. split; [reflexivity|]. cbn [coerce_value].
       pose proof (ft_int64 fl FT (show_f64 fl b) i (parse_i64_digits _ _ (ft_shape64 fl FT b V) P) P) as E.
       rewrite (ft_rt64 fl FT b V) in E. inversion E. reflexivity.
     + rewrite (ft_rt64 fl FT b V). eexists. split; reflexivity.
-  - (* Character: read as VARCHAR; cut to n bytes, or padded to n characters (nothing to pad) *)
+  - (* Float *) destruct ty; cbn [value_ok] in V; try (dead V).
+    destruct (special_cases32 b V) as [F | [-> | [-> | ->]]];
+      [| exists (VVarchar (lit "NaN")); split; vm_compute; reflexivity
+       | exists (VVarchar (lit "Infinity")); split; vm_compute; reflexivity
+       | exists (VVarchar (lit "-Infinity")); split; vm_compute; reflexivity].
+    clear V. rename F into V. rewrite float_toks_finite by (auto || exact V). cbn [app parse_value].
+    destruct (parse_i64 (show_f32 fl b)) as [i|] eqn:P.
+    + eexists. split; [reflexivity|]. cbn [coerce_value]. rewrite (ft_int32 fl FT b i V P). reflexivity.
+    + destruct (ft_rt32 fl FT b V P) as (d & Pd & Ed). rewrite Pd. eexists. split; [reflexivity|].
+      cbn [coerce_value]. rewrite Ed. reflexivity.
+  - (* Real *) destruct ty; cbn [value_ok] in V; try (dead V).
+    destruct (special_cases32 b V) as [F | [-> | [-> | ->]]];
+      [| exists (VVarchar (lit "NaN")); split; vm_compute; reflexivity
+       | exists (VVarchar (lit "Infinity")); split; vm_compute; reflexivity
+       | exists (VVarchar (lit "-Infinity")); split; vm_compute; reflexivity].
+    clear V. rename F into V. rewrite float_toks_finite by (auto || exact V). cbn [app parse_value].
+    destruct (parse_i64 (show_f32 fl b)) as [i|] eqn:P.
+    + eexists. split; [reflexivity|]. cbn [coerce_value]. rewrite (ft_int32 fl FT b i V P). reflexivity.
+    + destruct (ft_rt32 fl FT b V P) as (d & Pd & Ed). rewrite Pd. eexists. split; [reflexivity|].
+      cbn [coerce_value]. rewrite Ed. reflexivity.
+  - (* Double *) destruct ty; cbn [value_ok] in V; try (dead V).
+    destruct (special_cases64 b V) as [F | [-> | [-> | ->]]];
+      [| exists (VVarchar (lit "NaN")); split; vm_compute; reflexivity
+       | exists (VVarchar (lit "Infinity")); split; vm_compute; reflexivity
+       | exists (VVarchar (lit "-Infinity")); split; vm_compute; reflexivity].
+    clear V. rename F into V. rewrite float_toks_finite by (auto || exact V). cbn [app parse_value].
+    destruct (parse_i64 (show_f64 fl b)) as [i|] eqn:P.
+    + eexists. split; [reflexivity|]. cbn [coerce_value].
+      pose proof (ft_int64 fl FT (show_f64 fl b) i (parse_i64_digits _ _ (ft_shape64 fl FT b V) P) P) as E.
+      rewrite (ft_rt64 fl FT b V) in E. inversion E. reflexivity.
+    + rewrite (ft_rt64 fl FT b V). eexists. split; reflexivity.
+  - (* Character: read as VARCHAR, padded to n characters (nothing to pad) *)
     destruct ty; cbn [value_ok] in V; try (dead V).
-    apply andb_true_iff in V as [V V3]. apply andb_true_iff in V as [_ V2]. apply Z.eqb_eq in V2.
-    eexists. split; [reflexivity|]. cbn [coerce_value coerced].
-    destruct (length <? blen s); [reflexivity|]. rewrite pad_spaces_exact by exact V2. reflexivity.
+    apply andb_true_iff in V as [_ V2]. apply Z.eqb_eq in V2.
+    eexists. split; [reflexivity|]. cbn [coerce_value]. unfold coerced.
+    replace (length <? Z.of_nat (Datatypes.length s)) with false by (symmetry; apply Z.ltb_ge; lia).
+    rewrite pad_spaces_exact by exact V2. reflexivity.
   - (* Varchar *) destruct ty; cbn [value_ok] in V; try (dead V). eexists. split; reflexivity.
   - (* Boolean *) destruct ty; cbn [value_ok] in V; try (dead V).
     destruct b; kw_compute; eexists; split; reflexivity.
@@ -370,41 +425,25 @@ Qed.
 
 (** the storage layer keeps the value as it is *)
 (** ... which the storage layer turns (back) into the stored value *)
-Lemma value_normalize ty nl v : value_ok fl ty nl v = true -> normalize_value (coerced ty v) ty = OOk v.
+Lemma value_normalize ty nl v : value_ok ty nl v = true -> normalize_value (coerced ty v) ty = OOk v.
 Proof.
   intros V.
-  assert (CI : forall w, (forall s0, w <> VCharacter s0) -> coerced ty w = w)
-    by (intros w Hw; destruct ty, w; try reflexivity; exfalso; eapply Hw; reflexivity).
+  assert (CI : forall w, (forall s0, w <> VCharacter s0) -> coerced ty w = w) by reflexivity.
   destruct v as [n|n|n|n|b|b|b|b|s|s|b|y m d|h mi s ns|y m d h mi s ns|mo d us|];
     cbn [value_ok] in V; try rewrite CI by discriminate;
     try (destruct ty; cbn [value_ok] in V; try (dead V); reflexivity).
   - (* Character *) destruct ty; cbn [value_ok] in V; try (dead V).
-    apply andb_true_iff in V as [V V3]. apply andb_true_iff in V as [_ V2]. apply Z.eqb_eq in V2.
-    cbn [coerced]. destruct (Z.ltb_spec length (blen s)) as [Hcut | Hfit].
-    + (* cut to the characters that fit in n bytes, then padded back with the blanks that were cut *)
-      pose proof (floor_chars_lt length s ltac:(lia)) as Lk. set (k := floor_chars length s) in *.
-      cbn [normalize_value]. unfold byte_floor_prefix. fold k. rewrite firstn_length_le by lia.
-      replace (Z.of_nat k <? length) with true by (symmetry; apply Z.ltb_lt; lia).
-      unfold pad_spaces. rewrite firstn_length_le by lia.
-      pose proof (all_blank_repeat _ V3) as B. rewrite skipn_length in B.
-      replace (Z.to_nat length - k)%nat with (Datatypes.length s - k)%nat by lia.
-      rewrite <- B, firstn_skipn. reflexivity.
-    + cbn [normalize_value].
-      replace (Z.of_nat (Datatypes.length s) <? length) with false by (symmetry; apply Z.ltb_ge; lia).
-      replace (length <? Z.of_nat (Datatypes.length s)) with false by (symmetry; apply Z.ltb_ge; lia). reflexivity.
+    apply andb_true_iff in V as [_ V2]. apply Z.eqb_eq in V2. unfold coerced. cbn [normalize_value].
+    replace (Z.of_nat (Datatypes.length s) <? length) with false by (symmetry; apply Z.ltb_ge; lia).
+    replace (length <? Z.of_nat (Datatypes.length s)) with false by (symmetry; apply Z.ltb_ge; lia). reflexivity.
   - (* Varchar *) destruct ty as [| | | | | | |ml| | | | | | | | | | | | | |]; cbn [value_ok] in V; try (dead V).
     destruct ml as [n|]; [|reflexivity]. apply andb_true_iff in V as [_ V1]. apply Z.leb_le in V1.
     cbn [normalize_value]. replace (n <? blen s) with false by (symmetry; apply Z.ltb_ge; lia). reflexivity.
   - destruct ty; try reflexivity; repeat match goal with o : option Z |- _ => destruct o end; reflexivity.
 Qed.
 
-Lemma value_null ty nl v : value_ok fl ty nl v = true -> nl || negb (is_null (coerced ty v)) = true.
-Proof.
-  destruct v; cbn [value_ok]; intros H;
-    try (destruct ty; cbn [coerced is_null negb]; try apply orb_true_r;
-         match goal with |- context [if ?b then _ else _] => destruct b end; apply orb_true_r).
-  destruct ty; cbn [coerced is_null negb]; rewrite H; reflexivity.
-Qed.
+Lemma value_null ty nl v : value_ok ty nl v = true -> nl || negb (is_null (coerced ty v)) = true.
+Proof. unfold coerced. destruct v; cbn [value_ok is_null negb]; intros H; try apply orb_true_r. rewrite H. reflexivity. Qed.
 
 Fixpoint coerced_row (cols : list column) (row : list sqlvalue) : list sqlvalue :=
   match cols, row with
@@ -413,11 +452,15 @@ Fixpoint coerced_row (cols : list column) (row : list sqlvalue) : list sqlvalue 
   end.
 
 (** every value has at least one token *)
-Lemma value_toks_nonempty ty nl v : value_ok fl ty nl v = true -> value_toks v <> [].
-Proof. destruct v; cbn [value_toks]; try discriminate. destruct ty; cbn [value_ok]; intros H; dead H. Qed.
+Lemma value_toks_nonempty ty nl v : value_ok ty nl v = true -> value_toks v <> [].
+Proof.
+  destruct v; cbn [value_toks]; try discriminate;
+    try (intros _; unfold float_toks; repeat match goal with |- context [if ?b then _ else _] => destruct b end; discriminate).
+  destruct ty; cbn [value_ok]; intros H; dead H.
+Qed.
 
 Lemma parse_row row : forall cols rest fuel,
-  row_ok fl cols row = true -> row <> [] -> (length row <= fuel)%nat ->
+  row_ok cols row = true -> row <> [] -> (length row <= fuel)%nat ->
   exists pvs, parse_values fl fuel (row_toks row ++ TRParen :: rest) = OOk (pvs, rest)
               /\ eval_row fl cols pvs = OOk (coerced_row cols row) /\ length pvs = length cols.
 Proof.
@@ -437,21 +480,21 @@ Proof.
     + cbn [length]. rewrite L2. reflexivity.
 Qed.
 
-Lemma row_not_null cols row : row_ok fl cols row = true -> not_null_ok cols (coerced_row cols row) = true.
+Lemma row_not_null cols row : row_ok cols row = true -> not_null_ok cols (coerced_row cols row) = true.
 Proof.
   revert row. induction cols as [|c cols IH]; intros [|v row] R; try discriminate; [reflexivity|].
   cbn [row_ok] in R. apply andb_true_iff in R as [Rv R]. unfold not_null_ok. cbn [coerced_row combine forallb].
   rewrite (value_null _ _ _ Rv). apply IH, R.
 Qed.
 
-Lemma row_normalize cols row : row_ok fl cols row = true -> normalize_row cols (coerced_row cols row) = OOk row.
+Lemma row_normalize cols row : row_ok cols row = true -> normalize_row cols (coerced_row cols row) = OOk row.
 Proof.
   revert row. induction cols as [|c cols IH]; intros [|v row] R; try discriminate; [reflexivity|].
   cbn [row_ok] in R. apply andb_true_iff in R as [Rv R]. cbn [coerced_row normalize_row].
   rewrite (value_normalize _ _ _ Rv). cbn [obind]. rewrite IH by exact R. reflexivity.
 Qed.
 
-Lemma row_toks_length row cols : row_ok fl cols row = true -> (length row <= length (row_toks row))%nat.
+Lemma row_toks_length row cols : row_ok cols row = true -> (length row <= length (row_toks row))%nat.
 Proof.
   revert cols. induction row as [|v row IH]; intros cols R; [cbn; lia|].
   destruct cols as [|c cols]; [discriminate|]. cbn [row_ok] in R. apply andb_true_iff in R as [Rv R].
@@ -486,7 +529,7 @@ Qed.
 Ltac stop_by_cbn := cbn; split; [reflexivity | lia].
 
 Lemma lexes_insert name cols row :
-  ident_ok name = true -> row_ok fl cols row = true -> row <> [] ->
+  ident_ok name = true -> row_ok cols row = true -> row <> [] ->
   lexes (insert_stmt fl itx name row) (insert_toks name row).
 Proof.
   intros Hn R Hne. rewrite insert_stmt_shape. unfold insert_toks.
@@ -500,7 +543,7 @@ Proof.
 Qed.
 
 Lemma parse_insert_ok name cols row :
-  row_ok fl cols row = true -> row <> [] ->
+  row_ok cols row = true -> row <> [] ->
   exists pvs, parse_insert fl (insert_toks name row) = OOk (name, [pvs])
               /\ eval_row fl cols pvs = OOk (coerced_row cols row) /\ length pvs = length cols.
 Proof.
@@ -513,7 +556,7 @@ Qed.
 
 Lemma insert_rows_ok t pvs row :
   eval_row fl (t_cols t) pvs = OOk (coerced_row (t_cols t) row) -> length pvs = length (t_cols t) ->
-  row_ok fl (t_cols t) row = true ->
+  row_ok (t_cols t) row = true ->
   insert_rows fl t [pvs] = OOk (mk_table (t_name t) (t_cols t) (t_rows t ++ [row])).
 Proof.
   intros E L R. unfold insert_rows. cbn [forallb]. rewrite L, Nat.eqb_refl. cbn [andb negb map_ores].
@@ -533,7 +576,7 @@ Qed.
 
 Lemma load_insert db0 t row :
   ident_ok (t_name t) = true -> find_table (t_name t) db0 = false ->
-  row_ok fl (t_cols t) row = true -> row <> [] ->
+  row_ok (t_cols t) row = true -> row <> [] ->
   load_stmt fl (db0 ++ [t]) (insert_stmt fl itx (t_name t) row)
   = OOk (db0 ++ [mk_table (t_name t) (t_cols t) (t_rows t ++ [row])]).
 Proof.
@@ -825,12 +868,12 @@ Proof.
   cbn [app load_stmts]. destruct (load_stmt fl db s); cbn [obind]; [apply IH | reflexivity | reflexivity | reflexivity].
 Qed.
 
-Lemma row_ok_nonempty cols row : cols <> [] -> row_ok fl cols row = true -> row <> [].
+Lemma row_ok_nonempty cols row : cols <> [] -> row_ok cols row = true -> row <> [].
 Proof. destruct cols; [congruence|]. destruct row; [discriminate | discriminate]. Qed.
 
 Lemma load_inserts db0 name cols : forall rows done,
   ident_ok name = true -> find_table name db0 = false -> cols <> [] ->
-  forallb (row_ok fl cols) rows = true ->
+  forallb (row_ok cols) rows = true ->
   load_stmts fl (db0 ++ [mk_table name cols done]) (map (insert_stmt fl itx name) rows)
   = OOk (db0 ++ [mk_table name cols (done ++ rows)]).
 Proof.
@@ -843,7 +886,7 @@ Proof.
 Qed.
 
 Lemma load_table db0 t :
-  table_ok fl t = true -> find_table (t_name t) db0 = false ->
+  table_ok t = true -> find_table (t_name t) db0 = false ->
   load_stmts fl db0 (table_stmts fl itx t) = OOk (db0 ++ [t]).
 Proof.
   unfold table_ok. rewrite !andb_true_iff. intros ((((Hn & Hne) & Hc) & Hd) & Hr) F.
@@ -856,7 +899,7 @@ Lemma find_table_app name a b : find_table name (a ++ b) = find_table name a || 
 Proof. induction a as [|x a IH]; [reflexivity|]. cbn [app find_table]. rewrite IH, orb_assoc. reflexivity. Qed.
 
 Lemma load_db db : forall db0,
-  forallb (table_ok fl) db = true -> names_distinct (map t_name db) = true ->
+  forallb table_ok db = true -> names_distinct (map t_name db) = true ->
   (forall t, In t db -> find_table (t_name t) db0 = false) ->
   load_stmts fl db0 (dump_stmts fl itx db) = OOk (db0 ++ db).
 Proof.
@@ -923,31 +966,34 @@ Proof.
 Qed.
 
 (** ** a database inside the vocabulary is ordinary text for the splitter *)
-Lemma value_ok_benign ty nl v : value_ok fl ty nl v = true -> value_benign fl v = true.
+Lemma value_ok_benign ty nl v : value_ok ty nl v = true -> value_benign fl v = true.
 Proof.
   intros V.
   destruct v as [n|n|n|n|b|b|b|b|s|s|b|y m d|h mi s ns|y m d h mi s ns|mo d us|];
     cbn [value_ok value_benign] in *; try reflexivity;
     destruct ty; cbn [value_ok] in V; try (dead V).
-  - apply andb_true_iff in V as [V0 _]. apply is_decimal_plain, (ft_shape64 fl FT), V0.
-  - rewrite (is_decimal_plain _ (ft_shape32 fl FT b V)). apply orb_true_r.
-  - rewrite (is_decimal_plain _ (ft_shape32 fl FT b V)). apply orb_true_r.
-  - rewrite (is_decimal_plain _ (ft_shape64 fl FT b V)). apply orb_true_r.
+  - apply is_decimal_plain, (ft_shape64 fl FT), V.
+  - destruct (special_cases32 b V) as [F | [-> | [-> | ->]]]; try reflexivity.
+    rewrite (is_decimal_plain _ (ft_shape32 fl FT b F)). apply orb_true_r.
+  - destruct (special_cases32 b V) as [F | [-> | [-> | ->]]]; try reflexivity.
+    rewrite (is_decimal_plain _ (ft_shape32 fl FT b F)). apply orb_true_r.
+  - destruct (special_cases64 b V) as [F | [-> | [-> | ->]]]; try reflexivity.
+    rewrite (is_decimal_plain _ (ft_shape64 fl FT b F)). apply orb_true_r.
 Qed.
 
-Lemma value_ok_strings ty nl v : value_ok fl ty nl v = true -> forallb str_ok (value_strings v) = true.
+Lemma value_ok_strings ty nl v : value_ok ty nl v = true -> forallb str_ok (value_strings v) = true.
 Proof.
   intros V.
   destruct v as [n|n|n|n|b|b|b|b|s|s|b|y m d|h mi s ns|y m d h mi s ns|mo d us|];
     cbn [value_strings forallb]; try reflexivity.
   - destruct ty; cbn [value_ok] in V; try (dead V).
-    apply andb_true_iff in V as [V _]. apply andb_true_iff in V as [V _]. rewrite V. reflexivity.
+    apply andb_true_iff in V as [V _]. rewrite V. reflexivity.
   - destruct ty as [| | | | | | |[n|]| | | | | | | | | | | | | |]; cbn [value_ok] in V; try (dead V).
     + apply andb_true_iff in V as [V _]. rewrite V. reflexivity.
     + rewrite V. reflexivity.
 Qed.
 
-Lemma row_ok_benign cols row : row_ok fl cols row = true ->
+Lemma row_ok_benign cols row : row_ok cols row = true ->
   forallb (value_benign fl) row = true /\ forallb str_ok (flat_map value_strings row) = true.
 Proof.
   revert row. induction cols as [|c cols IH]; intros [|v row] R; try discriminate; [split; reflexivity|].
@@ -958,7 +1004,7 @@ Qed.
 Lemma type_ok_benign ty : type_ok ty = true -> type_benign ty = true.
 Proof. destruct ty; cbn; congruence. Qed.
 
-Lemma table_ok_benign t : table_ok fl t = true ->
+Lemma table_ok_benign t : table_ok t = true ->
   table_benign fl t = true /\ forallb str_ok (flat_map (fun r => flat_map value_strings r) (t_rows t)) = true.
 Proof.
   unfold table_ok. rewrite !andb_true_iff. intros ((((Hn & Hne) & Hc) & Hd) & Hr).
@@ -969,13 +1015,13 @@ Proof.
     rewrite Pc, (type_ok_benign _ Ct). reflexivity. }
   assert (Br : forallb (forallb (value_benign fl)) (t_rows t) = true
                /\ forallb str_ok (flat_map (fun r => flat_map value_strings r) (t_rows t)) = true).
-  { clear -Hr FT. induction (t_rows t) as [|row rows IH]; [split; reflexivity|].
+  { revert Hr. generalize (t_rows t) as rws. induction rws as [|row rows IH]; intros Hr; [split; reflexivity|].
     cbn [forallb] in Hr. apply andb_true_iff in Hr as [R Hr]. destruct (IH Hr) as [B S].
     destruct (row_ok_benign _ _ R) as [B1 S1]. cbn [forallb flat_map]. rewrite forallb_app, B1, S1, B, S. split; reflexivity. }
   destruct Br as [Br Sr]. split; [|exact Sr]. unfold table_benign. rewrite Pn, Bc, Br. reflexivity.
 Qed.
 
-Lemma db_ok_benign db : db_ok fl db = true -> db_benign fl db = true /\ forallb str_ok (db_strings db) = true.
+Lemma db_ok_benign db : db_ok db = true -> db_benign fl db = true /\ forallb str_ok (db_strings db) = true.
 Proof.
   unfold db_ok. rewrite andb_true_iff. intros [Hok _]. unfold db_benign, db_strings.
   induction db as [|t db IH]; [split; reflexivity|].
@@ -985,7 +1031,7 @@ Qed.
 
 (** * The round trip *)
 Theorem dump_roundtrip_thm g db :
-  generated_ok g = true -> db_ok fl db = true ->
+  generated_ok g = true -> db_ok db = true ->
   load_sql_dump fl (dump_text fl itx g db) = OOk db.
 Proof.
   intros G Hok. destruct (db_ok_benign db Hok) as [B S].
@@ -1062,7 +1108,7 @@ Definition ex_db : list table :=
    mk_table (lit "ORDERS_2") [col "K" TBoolean true; col "TS" (TTimestamp true) true] [[VBoolean true; VTimestamp 1999 12 31 23 59 59 120000000]]].
 
 Example dump_roundtrip_ex :
-  db_ok toy_fl ex_db = true /\ generated_ok (lit "2026-01-01 00:00:00 UTC") = true
+  db_ok ex_db = true /\ generated_ok (lit "2026-01-01 00:00:00 UTC") = true
   /\ load_sql_dump toy_fl (dump_text toy_fl no_itx (lit "2026-01-01 00:00:00 UTC") ex_db) = OOk ex_db.
 Proof.
   split; [vm_compute; reflexivity|]. split; [vm_compute; reflexivity|].
@@ -1124,7 +1170,7 @@ Proof. intros P. cbn [parse_value]. rewrite P. reflexivity. Qed.
     (the former counter-example does): *)
 Theorem char_padded_non_ascii_roundtrip_thm fl itx :
   let db := one_table [col "A" (TChar 4) true] [[VCharacter [233; 32; 32; 32]]] in
-  db_ok fl db = true /\ load_sql_dump fl (dump_text fl itx (lit "x") db) = OOk db.
+  db_ok db = true /\ load_sql_dump fl (dump_text fl itx (lit "x") db) = OOk db.
 Proof. split; vm_compute; reflexivity. Qed.
 
 (** ... but a value with a real character beyond the first [n] bytes still reloads as a different
@@ -1175,7 +1221,7 @@ Qed.
 (** every value of the vocabulary: its literal lexes to [value_toks], these parse to a literal
     that [coerce_value] turns into the stored value, which the storage layer keeps as it is *)
 Theorem load_value_thm fl itx (FT : float_text_ok fl) ty nullable v r ts rest :
-  value_ok fl ty nullable v = true -> val_stop r -> lexes r ts ->
+  value_ok ty nullable v = true -> val_stop r -> lexes r ts ->
   lexes (sql_value_to_literal fl itx v ++ r) (value_toks fl v ++ ts)
   /\ exists pv cv, parse_value fl (value_toks fl v ++ rest) = OOk (pv, rest)
                    /\ coerce_value fl pv ty = OOk cv /\ normalize_value cv ty = OOk v.
